@@ -5,7 +5,7 @@ import os
 import vlib, proglib
 from proglib import DT, DT_BITS
 
-PROP_FILES = ["Properties_C10.v"]
+PROP_FILES = ["Properties_C10.v", "Properties_reader.v"]
 U32 = 2**32 - 1
 IDS = [0, 1, 1, 2, 3, 255, 256, 300, 65535]
 PARAMS = [0, 0, 1, 9, 10, 11, 255, 256, 1000, 65536, 2**31 - 1, 2**31, U32 - 300, U32 - 1, U32]
